@@ -11,6 +11,12 @@ def run(ctx):
     rep = vlib.go_harness(ctx, "pkg/buffer/elastic", "TestVerifElasticCover", name="cover-real",
                           env={"VERIF_GRAPH": real["dot"], "VERIF_SCALE": 1}, timeout=900)
     vlib.absorb(ctx, rep, "cover-real")
+    # the elastic ring buffer on its own (a connection's inbound leftovers live in one): the graph of Ring.tla, the model of the
+    # ring it wraps, replayed on a real elastic.RingBuffer with the content-level oracle
+    ring = vlib.tlc_model_check(ctx, "MCRing", "Ring_small.cfg" if ctx.thorough else "Ring_quick.cfg", dump="g", timeout=900)
+    rep = vlib.go_harness(ctx, "pkg/buffer/elastic", "TestVerifElasticRingCover", name="ring-cover",
+                          env={"VERIF_GRAPH": ring["dot"], "VERIF_SCALE": 256}, timeout=900)
+    vlib.absorb(ctx, rep, "ring-cover")
     ctx.assumptions += ["TLC 1.8.0", "scripted io.Reader/io.Writer alphabet", "the ring-buffer pool is primed so that lazy allocation returns the capacity chosen by the model (checked, mismatch = non-conformance)",
                         ]
     return vlib.finish(ctx, "model_checking",
